@@ -138,14 +138,17 @@ struct C18 : vr::Driver {
       if (imm)
         for (double ms : {0.0, 0.05, 0.1, 0.2})
           for (double is : {0.0, 0.05, 0.2})
-            for (int files = 0; files < 3; files++) {
-              Spec s = base(true);
-              s.memSome = ms;
-              s.ioSome = is;
-              s.hasReclaim = files == 1;
-              s.hasHighTmp = files == 2;
-              specs.push_back(s);
-            }
+            for (int files = 0; files < 3; files++)
+              for (int tg = 0; tg < 3; tg++) {  // targets: defaults (0.1 / 0.1), stricter io target, stricter memory target
+                Spec s = base(true);
+                s.memSome = ms;
+                s.ioSome = is;
+                s.hasReclaim = files == 1;
+                s.hasHighTmp = files == 2;
+                if (tg == 1) s.args["io_pressure_pct"] = "0.03";
+                if (tg == 2) s.args["pressure_pct"] = "0.03";
+                specs.push_back(s);
+              }
       // D. environment histories
       for (int ev = 1; ev <= 4; ev++)
         for (int psi : {0, 2})
